@@ -95,7 +95,7 @@ pub fn options(c: &Cfg) -> ServerAssociationOptions<'static, AcceptAny, DefaultN
         .promiscuous(c.prom)
         .strict(c.strict)
         .max_pdu_length(c.maxpdu)
-        .read_timeout(Duration::from_secs(10));
+        .read_timeout(Duration::from_secs(60));
     for a in &c.abs {
         o = o.with_abstract_syntax(a.clone());
     }
@@ -128,27 +128,32 @@ pub fn establish_cfg(c: &Cfg, s: TcpStream) -> SrvResult {
 
 struct Process(Pdu);
 impl Act for Process {
-    type Out = (String, String);
-    fn run<A: AccessControl, N: Negotiation>(self, o: ServerAssociationOptions<'static, A, N>) -> (String, String) {
+    type Out = (Pdu, String);
+    fn run<A: AccessControl, N: Negotiation>(self, o: ServerAssociationOptions<'static, A, N>) -> (Pdu, String) {
         match dicom_ul::verif_hooks::process_a_association_rq(&o, self.0) {
-            Ok((reply, n, called)) => (
-                pdu_tok(&reply),
-                format!(
+            Ok((reply, n, called)) => {
+                let t = format!(
                     "ok {} - {} {} {} {}",
                     n.peer_max_pdu_length,
                     hexs(&n.peer_ae_title),
                     hexs(&called),
                     negotiated_tok(&n.presentation_contexts),
                     uvs_tok(&n.user_variables)
-                ),
-            ),
-            Err((reply, e)) => (pdu_tok(&reply), err_tok(&e).to_string()),
+                );
+                (reply, t)
+            }
+            Err((reply, e)) => (reply, err_tok(&e).to_string()),
         }
     }
 }
 /// the real `process_a_association_rq`, in-process through the verification hook:
 /// (answer PDU tokens, negotiated state tokens; the acceptor's own maximum is not part of it: `-`)
 pub fn process_cfg(c: &Cfg, first: Pdu) -> (String, String) {
+    let (reply, t) = dispatch(c, Process(first));
+    (pdu_tok(&reply), t)
+}
+/// same, keeping the answer PDU
+pub fn process_cfg_pdu(c: &Cfg, first: Pdu) -> (Pdu, String) {
     dispatch(c, Process(first))
 }
 
